@@ -16,6 +16,9 @@ func replayOther(t *Tracer, rs *replayState, name string, e map[string]interface
 	if rs.hist.handle(t, name, e) {
 		return true
 	}
+	if concReplay(t, name, e, c, *st) {
+		return true
+	}
 	switch name {
 	case "scan":
 		if *st != nil {
